@@ -42,7 +42,16 @@ func selectItems(q string) ([]string, bool) {
 		}
 	}
 	if start < 0 || end < 0 {
-		return nil, false
+		// INSERT/UPDATE/DELETE ... RETURNING a, b: the returned columns play the role of the select list
+		start, end = -1, len(toks)
+		for i, t := range toks {
+			if t.depth == 0 && t.s == "RETURNING" {
+				start = i + 1
+			}
+		}
+		if start < 0 {
+			return nil, false
+		}
 	}
 	var items []string
 	for _, it := range splitTop(toks[start:end], 0, ",") {
